@@ -251,7 +251,7 @@ func cmdCheck(args []string) int {
 			}
 			continue
 		}
-		if id == "C19" && ob.Kind != "safe" && ob.Kind != "in-subset" {
+		if id == "C19" && ob.Kind != "safe" && ob.Kind != "in-subset" && !containsStr(ob.Props, "C19") && ob.Kind != "contract-typechecks" && ob.Kind != "contract-target-present" {
 			continue // the sweep only decides safety obligations; contract obligations belong to the other properties
 		}
 		if id == "C19" && ob.Kind == "in-subset" && r.Status != "unsat" {
